@@ -176,7 +176,7 @@ func pdWhyExcluded(c *pdCase, j int) string {
 		return "directory"
 	case e.Pre == "_a":
 		return "underscore"
-	case path.Ext(e.name()) == ".go" && e.Pre == "gop_autogen":
+	case path.Ext(e.name()) == ".go" && strings.HasPrefix(e.Pre, "gop_autogen"):
 		return "autogen-go"
 	case !c.Entry[j].Ok:
 		return "unknown-ext:" + path.Ext(e.name())
